@@ -143,17 +143,17 @@ Proof. exact order_p_diagonalises. Qed.
 (* ---- the modes diagonalise the Kolmogorov phase covariance on the native polar grid (npp = 5 nr) ----
    cov2 F1 F2 = -1/2 * (1/(nr N))^2 * sum_{k,t} sum_{k',t'} F1[k][t] * D(k, k', (t - t') mod N) * F2[k'][t'],
    the double pupil average of F1(x) D(|x - x'|) F2(x'), where D(k,k',s) is the structure function of the
-   separation of the polar grid points (r_k, theta) and (r_k', theta + 2 pi s/N) in units of the diameter: *)
-Theorem C13_cov2_uses_the_kolmogorov_structure_function : forall G K nr rad k k' s, (s < 5 * nr)%nat ->
+   separation of the polar grid points (r_k, theta) and (r_k', theta + 2 pi s/N) in units of the diameter, for the
+   radii the model itself generates: *)
+Theorem C13_cov2_uses_the_kolmogorov_structure_function : forall G K ri nr k k' s, (s < 5 * nr)%nat ->
+  let rad := gkl_radii (ROps G K) ri nr in
   Dsf G K nr rad k k' s
   = stf_kolmogorov (ROps G K)
       (5 / 10 * sqrt ((nth k rad 0 * nth k rad 0 + nth k' rad 0 * nth k' rad 0)
                       - 2 * nth k rad 0 * nth k' rad 0 * cos (INR s * 2 * PI / INR (5 * nr)))).
-Proof.
-  intros G K nr rad k k' s Hs. unfold Dsf, kl_sf.
-  rewrite (Dft_proofs.nth_map_seq _ (5 * nr) s) by exact Hs.
-  f_equal. unfold nofQ, nsqr, two, kz. rops. rewrite <- !INR_IZR_INZ. reflexivity.
-Qed.
+Proof. exact Dsf_model_radii. Qed.
+(* (the code clips the squared separation at 0 before the square root -- a rounding guard, fix 0b251bc; over the reals
+   the clip is the identity because the squared separation (a-b)^2 + 2ab(1 - cos) of non-negative radii is >= 0) *)
 
 (* for the modes the model builds from eigenvector matrices satisfying the eigen-equations of the matrices it hands
    to eigh (order 0 after piston filtering, orders 1..pmax), every pair of selected modes other than the constant
